@@ -4,6 +4,7 @@ From ZV.Gen Require Import Gen_Seek.
 From ZV.Seek Require Import SeekTable SeekBase SeekTableProofs SeekLoadProofs SeekLoadSafe SeekWriteProofs SeekWriter.
 From ZV.Seek Require Import SeekReader SeekReaderProofs SeekEndToEnd SeekCompressProofs SeekIntegrity.
 From ZV.Seek Require Import SeekReaderOld SeekBeyond SeekExact.
+From ZV.Seek Require Import SeekLoadConverse SeekFailed.
 Import ListNotations.
 Local Open Scope N_scope.
 
@@ -338,3 +339,73 @@ Theorem seektable_roundtrip_any_flag : forall cf log pre buf0,
   load_seek_table sk_BUFF (pre ++ seek_table_bytes cf log) buf0 = Ok (table_of (flag_set cf) log).
 Proof. exact SeekEndToEnd.seektable_roundtrip_any_flag. Qed.
 Print Assumptions seektable_roundtrip_any_flag.
+
+(* ================================================================ round 3 ================================================ *)
+
+(* ---- fix 56d8861 (the loader refuses numFrames > ZSTD_SEEKABLE_MAXFRAMES): the converse of seektable_roundtrip.
+   For ARBITRARY file bytes and any previous buffer content, the loader accepts a file and returns table t IF AND ONLY IF
+   the file is [any bytes ++ skippable magic ++ size ++ the entries of a log of <= MAXFRAMES frames ++ count ++ descriptor ++
+   magic] (table_frame: the serialiser's format, with any descriptor byte whose reserved bits 2..6 are clear - bits 0..1 are
+   unused) and t is table_of that log under the descriptor's flag.  So "malformed seek tables lead to errors": nothing but a
+   well-formed table frame is accepted, and what is reported is what the file holds. *)
+Theorem loader_accepts_exactly_serialised_tables : forall file buf0 t,
+  bytes_ok file -> lenN buf0 = sk_BUFF ->
+  (load_seek_table sk_BUFF file buf0 = Ok t <->
+   exists pre fl sfd log,
+     file = pre ++ table_frame fl sfd log /\ lenN log <= MAXFRAMES /\ Forall logent_ok log /\
+     (sfd / 4) mod 32 = 0 /\ negb (sfd / 128 =? 0) = fl /\ t = table_of fl log).
+Proof. exact load_accepts_exactly_table_frames_BUFF. Qed.
+Print Assumptions loader_accepts_exactly_serialised_tables.
+(* the serialiser's output is the instance with the descriptor byte it writes *)
+Theorem seek_table_bytes_is_a_table_frame : forall fl log, lenN log <= MAXFRAMES ->
+  seek_table_bytes (cf_of fl) log = table_frame fl (sfd_of (cf_of fl)) log.
+Proof. exact seek_table_bytes_frame. Qed.
+Print Assumptions seek_table_bytes_is_a_table_frame.
+(* witness for the code before the fix (ld_header_old = the size arithmetic without the limit): the 78-byte archive of
+   "0123456789" (3 entries) with the footer count replaced by 2^29 + 3 passes the footer and the header checks (the U32
+   tableSize wraps onto 24); the current model refuses it with corruption_detected.  (The old loop would then run 2^29 + 3
+   times over a stale buffer: not computed here; shown on the real code, docs/C20.md section 10.) *)
+Theorem loader_before_fix_passes_wrapped_count :
+  exists buf, ld_footer 64 wrap_file (repeat 0 64) = Ok (buf, false, 536870915) /\
+              (exists s0, ld_header_old 64 wrap_file buf false 536870915 = Ok s0) /\
+              ld_header 64 wrap_file buf false 536870915 = Err sk_E_corruption_detected /\
+              lenN wrap_file = 78.
+Proof. exact wrapped_count_passes_old_header_checks. Qed.
+Print Assumptions loader_before_fix_passes_wrapped_count.
+
+(* ---- fix 9b1486b: the state after a failed src.read inside the decoding loop (curFrame = (U32)-1) satisfies the cache
+   invariant, for every table and state *)
+Theorem failed_read_leaves_consistent_cache : forall content t st, wf_table t -> Inv content t (read_failed st).
+Proof. exact read_failed_keeps_invariant. Qed.
+Print Assumptions failed_read_leaves_consistent_cache.
+
+(* ---- the three error returns that leave curFrame = (U32)-1 (failed seek c859e4f, failed decoder b978b70, failed read
+   9b1486b) really forget the position: the next ZSTD_seekable_decompress inside the content is THE SAME call whatever the
+   failed call left in decompressedOffset, the decoder position, the frame it was in and the hash state (every table, hash,
+   content, pacing, previous dst), and it starts by seeking to the start of the frame that contains the offset *)
+Theorem failed_call_position_is_forgotten : forall H content BUFF NOPROG t sfc,
+  wf_table t -> forall doff f p fin acc doff' f' p' fin' acc' tr dst len offset orc,
+  offset < e_d (ent t (t_len t)) ->
+  seekable_decompress H content BUFF NOPROG t sfc (nowhere doff f p fin acc tr) dst len offset orc =
+  seekable_decompress H content BUFF NOPROG t sfc (nowhere doff' f' p' fin' acc' tr) dst len offset orc.
+Proof. exact nowhere_is_forgotten. Qed.
+Print Assumptions failed_call_position_is_forgotten.
+Theorem call_after_failed_call_restarts : forall H content BUFF NOPROG t sfc,
+  wf_table t -> forall doff f p fin acc tr dst len offset orc,
+  offset < e_d (ent t (t_len t)) ->
+  exists i, offset_to_frame t offset = Ok i /\ i < t_len t /\
+    seekable_decompress H content BUFF NOPROG t sfc (nowhere doff f p fin acc tr) dst len offset orc =
+    rloop H content BUFF NOPROG t sfc offset
+          (if sub64 (e_d (ent t (t_len t))) offset <? len then sub64 (e_d (ent t (t_len t))) offset else len)
+          orc (mkR i (e_d (ent t i)) i 0 false [] (EvRestart i :: tr)) i 0 dst.
+Proof. exact nowhere_restarts. Qed.
+Print Assumptions call_after_failed_call_restarts.
+Theorem failed_states_are_nowhere : forall t st target,
+  read_failed st = nowhere (r_doff st) (d_frame st) (d_prod st) (d_fin st) (r_acc st) (r_trace st) /\
+  decoder_failed st = nowhere (r_doff st) (d_frame st) (d_prod st) (d_fin st) (r_acc st) (r_trace st) /\
+  restart_seek_failed t false st target = nowhere (r_doff st) (d_frame st) (d_prod st) (d_fin st) (r_acc st) (r_trace st).
+Proof. intros. repeat split. Qed.
+Print Assumptions failed_states_are_nowhere.
+(* the hypotheses are satisfiable: the example table of round 1 (3 frames) and offset 0 *)
+Example failed_call_hypotheses_satisfiable : wf_table ex_t0 /\ 0 < e_d (ent ex_t0 (t_len ex_t0)).
+Proof. split; [exact ex_t0_wf|vm_compute; reflexivity]. Qed.
